@@ -784,6 +784,8 @@ def reference(mp, name, par, x):
     """(value, scale) of the documented closed form at x, 50 digits; scale = largest intermediate."""
     mpf = mp.mpf
     x = mpf(x)
+    if name == "UserIdentity":
+        return x, abs(x)
     if name == "Huber":
         dl = mpf(par[0])
         if mp.sqrt(x) < dl:
@@ -846,6 +848,12 @@ def grid(rng, name, par, n_extra):
 
 
 def make_kernel(pp, name, par):
+    import torch
+    if name == "UserIdentity":            # user-defined kernels that hand their input back: rho(x) = x
+        class Same(torch.nn.Module):
+            def forward(self, x):
+                return x
+        return Same() if not par else torch.nn.Identity()
     K = getattr(pp.optim.kernel, name)
     return K(*par)
 
@@ -924,7 +932,8 @@ def builtin_corrector_traces(ctx):
     mp.mp.dps = 50
     rng = ctx.rng
     kernels = [("Huber", [1.0]), ("Huber", [0.5]), ("PseudoHuber", [1.0]), ("Cauchy", [2.0]), ("SoftLOne", [1.0]),
-               ("Arctan", [1.0]), ("Tolerant", [1.0, -0.5]), ("Scale", [0.5])]
+               ("Arctan", [1.0]), ("Tolerant", [1.0, -0.5]), ("Scale", [0.5]),
+               ("UserIdentity", []), ("UserIdentity", [1.0])]       # (a user module / torch.nn.Identity): rho'' = 0
     traces = []
     for name, par in kernels:
         for dname in ("float64", "float32"):
@@ -933,7 +942,7 @@ def builtin_corrector_traces(ctx):
             for d in ([1, 3] if ctx.quick else [1, 2, 3, 6]):
                 P = rng.randint(1, 3)
                 rows = [[0.0] * d,                                                   # exactly zero residual
-                        [float(par[0])] + [0.0] * (d - 1),                           # |R| = delta exactly (Huber threshold)
+                        [float(par[0]) if par else 1.0] + [0.0] * (d - 1),           # |R| = delta exactly (Huber threshold)
                         [0.0] * (d - 1) + [float(rng.randint(1, 3))],                # a zero component but non-zero row
                         [float(rng.randint(-3, 3)) / 2 for _ in range(d)],
                         [float(rng.randint(-8, 8)) for _ in range(d)]]
